@@ -99,14 +99,27 @@ func (in *Interp) initFuncAddr(f *FuncV) {
 	}
 	p.addPC(Eq(w, f.code))
 	// distinct from other func values used on this path
+	if farFacts == nil {
+		farFacts = map[[2]*Term]uint64{}
+	}
+	far := func(a, b *Term, n uint64) {
+		farFacts[[2]*Term{a, b}] = n
+		farFacts[[2]*Term{b, a}] = n
+	}
 	for _, o := range p.funcsWithAddr {
 		if o != f {
+			// distinct 8-aligned func values are at least 8 bytes apart
 			p.addPC(Ne(o.addr, f.addr))
+			far(o.addr, f.addr, 8)
 			if o.code != f.code {
 				p.addPC(Ne(o.code, f.code))
 			}
+			// heap and text ranges are far apart
+			far(o.addr, f.code, 1<<28)
+			far(f.addr, o.code, 1<<28)
 		}
 	}
+	far(f.addr, f.code, 1<<28)
 	p.funcsWithAddr = append(p.funcsWithAddr, f)
 	p.witnesses = append(p.witnesses, witness{name: f.addr.name, t: f.addr}, witness{name: f.code.name, t: f.code})
 }
